@@ -89,17 +89,41 @@ def shape_predicates(ctx, rule='shape-predicates-agree'):
                         ot = [x for x in sc[1:] if not (isinstance(x, tuple) and x[0] == 'rowwise')]
                         if len(rw) == 1 and len(ot) == 1 and (sc[0] == '*' or sc[1][0] == 'rowwise'):
                             g = (sc[0], ot[0])
+                        # vectors * diag(d): the same column scaling written as a product with a diagonal matrix
+                        dg = [x for x in sc[1:] if isinstance(x, tuple) and x[0] == 'asDiagonal']
+                        lc = [x for x in sc[1:] if isinstance(x, tuple) and x[0] == 'leftCols']
+                        if sc[0] == '*' and len(dg) == 1 and len(lc) == 1 and sc[2] == dg[0]:
+                            g = ('*', dg[0][1])
                     if g is None:
                         raise AnalysisBroken('%s::%s: scaling of the derived factor not recognised: %s' % (rec, name, show(t)))
                     bad = []
-                    for lam in GRID:
+                    for S_ in _scale_grid(ctx, rec):
+                        _CUR_SCALE[0] = S_
+                        for lam in GRID:
+                            try:
+                                v = _scalar(g[1], lam)
+                            except CannotEval as e:
+                                _CUR_SCALE[0] = 1.0
+                                raise AnalysisBroken('%s::%s: scaling outside the scalar domain: %s' % (rec, name, e))
+                            scale = (1.0 / v if v != 0 else float('inf')) if g[0] == '/' else v
+                            # the inner eigenvalue lam belongs to the operator built on A / S: the singular value is S sqrt(lam)
+                            if not abs(scale * S_ * lam ** 0.5 - 1.0) <= 1e-9:
+                                bad.append('%g%s' % (lam, '' if S_ == 1.0 else ' (operator scale %g)' % S_))
+                    _CUR_SCALE[0] = 1.0
+                    # a zero singular value (zero matrix, rank-deficient matrix: both named by the quantifiers) reaches the accessor as an
+                    # inner eigenvalue that is zero up to rounding, on either side of zero: the column scaling must stay finite there
+                    # (A v is zero as well, so anything but a finite factor gives 0/0 = NaN columns)
+                    nonfinite = []
+                    for lam in (0.0, -1e-30, -1e-17, -3e-16):
                         try:
                             v = _scalar(g[1], lam)
                         except CannotEval as e:
                             raise AnalysisBroken('%s::%s: scaling outside the scalar domain: %s' % (rec, name, e))
-                        scale = (1.0 / v if v != 0 else float('inf')) if g[0] == '/' else v
-                        if not abs(scale * lam ** 0.5 - 1.0) <= 1e-9:
-                            bad.append('%g' % lam)
+                        f_ = (1.0 / v if v != 0 else float('inf')) if g[0] == '/' else v
+                        if not (f_ == f_ and abs(f_) != float('inf')):
+                            nonfinite.append('%g -> %s' % (lam, f_))
+                    if nonfinite:
+                        problems.append('%s: the column scaling of the derived factor is not finite for a zero singular value (inner eigenvalue %s): the singular vectors of the zero matrix and of rank-deficient matrices come back as NaN' % (name, ', '.join(nonfinite)))
                     if bad:
                         problems.append('%s: the derived factor is not scaled by 1/sqrt(eigenvalue) for eigenvalues %s (an absolute threshold or a different power: the factor is not normalised for matrices of that magnitude)' % (name, ', '.join(bad)))
                     heads = [x for x in _walk(t) if isinstance(x, tuple) and x[0] in ('head', 'leftCols')]
@@ -158,6 +182,9 @@ def _inline_helpers(ctx, rec, t, depth=0):
     return tuple(_inline_helpers(ctx, rec, x, depth) if isinstance(x, tuple) else x for x in t)
 
 
+_CUR_SCALE = [1.0]        # value of the operator's scale() while an accessor expression is evaluated
+
+
 def _scalar(t, lam):
     """value at eigenvalue `lam` of an element-wise expression over the inner solver's eigenvalues (views are transparent)"""
     import math
@@ -166,6 +193,8 @@ def _scalar(t, lam):
     op = t[0]
     if op == 'eigenvalues':
         return lam
+    if op == 'scale' and len(t) == 2:
+        return _CUR_SCALE[0]          # m_op->scale(): the factor by which the operator's matrix was divided
     if op in ('head', 'tail', 'transpose', 'array', 'matrix', 'segment', 'real', 'eval'):
         return _scalar(t[1], lam)
     if op == 'lit':
@@ -184,6 +213,8 @@ def _scalar(t, lam):
     if op == 'call':
         if t[1] == 'epsilon':
             return EPS
+        if t[1] in ('Zero', 'Ones'):
+            return 0.0 if t[1] == 'Zero' else 1.0
         args = [_scalar(x, lam) for x in t[2:]]
         if t[1] == 'pow' and len(args) == 2:
             return args[0] ** args[1]
@@ -201,9 +232,31 @@ def _scalar(t, lam):
         return a + b if op == '+' else a - b if op == '-' else a * b
     if op == 'u-':
         return -_scalar(t[1], lam)
+    if op == 'select' and len(t) == 4:
+        return _scalar(t[2], lam) if _scalar(t[1], lam) else _scalar(t[3], lam)
+    if op in ('<', '<=', '>', '>=', '==', '!=') and len(t) == 3:
+        a, b = _scalar(t[1], lam), _scalar(t[2], lam)
+        return {'<': a < b, '<=': a <= b, '>': a > b, '>=': a >= b, '==': a == b, '!=': a != b}[op]
+    if op in ('Zero', 'Constant', 'Ones'):
+        return 0.0 if op == 'Zero' else 1.0 if op == 'Ones' else _scalar(t[-1], lam)
     if op in ('cast', 'ctor') and len(t) >= 2:
         return _scalar(t[-1], lam)
     raise CannotEval(show(t))
+
+
+def _ops_normalise(ctx, rec):
+    """True if the two SVD operators of this instantiation divide by a stored scale in perform_op."""
+    mt = rec[rec.index('<') + 1:rec.rindex('>')]
+    hits = 0
+    for fn in ctx.F.concrete():
+        if fn.cls in ('Spectra::SVDTallMatOp', 'Spectra::SVDWideMatOp') and fn.name == 'perform_op' and fn.cfg:
+            if any(y['k'] == 'MemberExpr' and y.get('mk') == 'field' and 'scale' in y.get('member', '') for y in fn.walk()):
+                hits += 1
+    return hits > 0
+
+
+def _scale_grid(ctx, rec):
+    return (1.0, 1e-9, 3e7) if _ops_normalise(ctx, rec) else (1.0,)
 
 
 GRID = (1e-30, 1e-22, 1e-16, 1e-13, 1e-9, 1e-4, 1.0, 1e6, 1e14)
@@ -249,13 +302,18 @@ def clamps(ctx, rule='clamps-and-fixed-rule'):
         if len(r) != 1:
             bad.append('%d returns' % len(r))
         else:
-            for lam in GRID + (0.0,):
-                try:
-                    v = _scalar(r[0], lam)
-                except CannotEval as e:
-                    raise AnalysisBroken('%s::singular_values outside the scalar domain: %s' % (rec, e))
-                if not abs(v - lam ** 0.5) <= 1e-12 * max(1.0, lam ** 0.5) and not (lam > 0 and abs(v / lam ** 0.5 - 1) <= 1e-12):
-                    bad.append('value %g for eigenvalue %g' % (v, lam))
+            for S_ in _scale_grid(ctx, rec):
+                _CUR_SCALE[0] = S_
+                for lam in GRID + (0.0,):
+                    try:
+                        v = _scalar(r[0], lam)
+                    except CannotEval as e:
+                        _CUR_SCALE[0] = 1.0
+                        raise AnalysisBroken('%s::singular_values outside the scalar domain: %s' % (rec, e))
+                    want = S_ * lam ** 0.5
+                    if not abs(v - want) <= 1e-12 * max(1.0, want) and not (lam > 0 and abs(v / want - 1) <= 1e-12):
+                        bad.append('value %g for eigenvalue %g%s' % (v, lam, '' if S_ == 1.0 else ' of the operator built on A / %g' % S_))
+            _CUR_SCALE[0] = 1.0
             # a zero singular value (exactly rank-deficient input, which the property names) comes back from the inner solver as an
             # eigenvalue of A'A that is zero up to rounding -- on either side of zero: the result must still be finite and non-negative
             for lam in (-1e-30, -1e-17, -3e-16):
@@ -267,8 +325,62 @@ def clamps(ctx, rule='clamps-and-fixed-rule'):
                   'sqrt of the inner eigenvalues on the whole magnitude grid (a clamp at zero is allowed)' if not bad else 'returns %s: %s' % ([show(x) for x in r], '; '.join(bad[:3])))
 
 
+def operator_normalised(ctx, rule='svd-operator-normalised'):
+    """The inner symmetric solver accepts a Ritz pair when its estimate is below tol * max(eps^(2/3), |theta|): an ABSOLUTE floor
+    (documented, from ARPACK).  The SVD wrapper hands it A'A (or AA'), whose spectrum is the squared singular values and scales
+    with ||A||^2: for ||A|| below about 1e-6 every theta is under the floor and all values "converge" at once, with errors of
+    0.2 ||A||; for ||A|| above 1e77 the squares overflow.  The property asks for the singular values "to the requested tolerance"
+    for all matrices.  So the operator must be built on A divided by a scale derived from the magnitudes of its own entries, and
+    the accessors must multiply back (the second half is decided by the grid evaluation of the accessor expressions, which takes
+    the operator's scale as a parameter)."""
+    n = 0
+    for cls in ('Spectra::SVDTallMatOp', 'Spectra::SVDWideMatOp'):
+        seen = set()
+        for fn in ctx.F.concrete():
+            if fn.cls != cls or fn.name != 'perform_op' or not fn.cfg or fn.mangled in seen:
+                continue
+            seen.add(fn.mangled)
+            n += 1
+            recs = [r for r in ctx.F.records.values() if r['qname'] == fn.record and not r['dep']]
+            scale_fields = [f['name'] for f in recs[0]['fields'] if 'scale' in f['name']]
+            probs = []
+            divs = 0
+            for x in fn.walk():
+                if x['k'] in ('CXXOperatorCallExpr', 'CompoundAssignOperator', 'BinaryOperator') and x.get('op') in ('/=', '/', '*=', '*'):
+                    a = fn.call_args(x) if x['k'] == 'CXXOperatorCallExpr' else [fn.nodes[c] for c in x['c']]
+                    if len(a) == 2 and any(y['k'] == 'MemberExpr' and y.get('mk') == 'field' and y.get('member') in scale_fields for y in fn.walk(a[1]['id'])) and x.get('op') in ('/=', '/'):
+                        divs += 1
+            if not scale_fields or divs == 0:
+                probs.append('the operator applies A and A\' as they are')
+            elif divs != 2:
+                probs.append('the operator divides by its scale %d time(s): A\'A / s^2 needs exactly two' % divs)
+            # where the scale comes from: the constructor initialises it from the magnitudes of the entries of the matrix
+            ctors = [c for c in ctx.F.concrete() if c.record == fn.record and c.d.get('ctor')]
+            okinit = False
+            for c in ctors:
+                for i in c.inits:
+                    if i['member'] in scale_fields and i['expr'] >= 0:
+                        for y in c.walk(i['expr']):
+                            if y['k'] == 'CallExpr':
+                                h = ctx.F.resolve(y)
+                                if h is not None and any(z['k'] == 'CallExpr' and z.get('callee') in ('abs', 'fabs') for z in h.walk()) and \
+                                        any(z['k'] == 'CallExpr' and z.get('callee') in ('max', 'fmax') for z in h.walk()):
+                                    okinit = True
+                            if y['k'] == 'CXXMemberCallExpr' and y.get('callee') == 'maxCoeff':
+                                okinit = True
+            if scale_fields and not okinit:
+                probs.append('the scale is not initialised from the largest magnitude of the entries')
+            ctx.check(not probs, rule, '%s::perform_op' % cls.replace('Spectra::', ''), fn.qname,
+                      'A\'A is applied as (A/s)\'(A/s) with s the largest magnitude of the entries of A' if not probs else
+                      '; '.join(probs) + ': the eigenvalues handed to the inner solver scale with ||A||^2, its convergence test has the absolute floor eps^(2/3) -- for ||A|| below about 1e-6 '
+                      'every Ritz value passes at once (nconv == ncomp with singular values off by 0.2 ||A||), for ||A|| above 1e77 the squares overflow')
+    if n < 2:
+        raise AnalysisBroken('only %d SVD operators analysed' % n)
+
+
 def run(ctx):
     shape_predicates(ctx)
+    operator_normalised(ctx)
     c06.svd_cache(ctx)
     clamps(ctx)
     hygiene.stored_ref_lifetime(ctx)
